@@ -187,6 +187,15 @@ func runC16(c *Ctx) {
 			t.segs = append(t.segs, tseg{kind: sVar, field: "name.s"})
 			return rrule{primary: rbind{kind: "GET", t: t}}
 		}, true},
+		{"field-through-map", func(t ttmpl) rrule {
+			t.segs = append(t.segs, tseg{kind: sVar, field: []string{"m.value", "m.key", "nm.value.s", "nm.value"}[c.Rng.Intn(4)]})
+			return rrule{primary: rbind{kind: "GET", t: t}}
+		}, true},
+		{"field-through-list", func(t ttmpl) rrule {
+			t.segs = append(t.segs, tseg{kind: sVar, field: []string{"rn.s", "rn.child.s", "nested.tags.x"}[c.Rng.Intn(3)]})
+			return rrule{primary: rbind{kind: "GET", t: t}}
+		}, true},
+		{"body-through-map", func(t ttmpl) rrule { return rrule{primary: rbind{kind: "POST", t: t, body: "nm.value"}} }, true},
 		{"bad-body", func(t ttmpl) rrule { return rrule{primary: rbind{kind: "POST", t: t, body: "no_such_field"}} }, true},
 		{"bad-response-body", func(t ttmpl) rrule { return rrule{primary: rbind{kind: "GET", t: t, resp: "no_such_field"}} }, true},
 		{"nested-additional", func(t ttmpl) rrule {
@@ -260,13 +269,25 @@ func runC16(c *Ctx) {
 		if c.Rng.Intn(3) == 0 { // conflict through an additional binding
 			second = rrule{method: m2, primary: rbind{kind: kind, t: ttmpl{segs: []tseg{{kind: sLit, lit: "other"}}}}, additional: []rbind{{kind: kind, t: t}}}
 		}
+		if c.Rng.Intn(3) == 0 { // the same template in its other spelling: {field} <-> {field=*}
+			t2 := t
+			t2.segs = append([]tseg(nil), t.segs...)
+			for j := range t2.segs {
+				if t2.segs[j].kind == sVar && t2.segs[j].sub == nil {
+					t2.segs[j].sub = []tseg{{kind: sStar}}
+				} else if t2.segs[j].kind == sVar && len(t2.segs[j].sub) == 1 && t2.segs[j].sub[0].kind == sStar {
+					t2.segs[j].sub = nil
+				}
+			}
+			second = rrule{method: m2, primary: rbind{kind: kind, t: t2}}
+		}
 		rules := []rrule{{method: m1, primary: rbind{kind: kind, t: t}}, second}
 		_, outs := env.buildImplTrie(rules)
 		line := rulesLine(rules)
 		c.Correspond("conflict", join("addrules", line), strings.Join(outs, " "), true)
 		c.Class("conflict:" + outs[1])
 		if outs[0] == "ok" && outs[1] != "err:duplicate-rule" {
-			c.SpecFail("conflict", fmt.Sprintf("%s %s for methods %d and %d", kind, t.String(), m1, m2), outs[1], "err:duplicate-rule", "C16/reject/conflict-accepted", "a binding that conflicts with another method's is not rejected")
+			c.SpecFail("conflict", fmt.Sprintf("%s %s for method %d and %s", kind, t.String(), m1, describeRules([]rrule{second}, nil)), outs[1], "err:duplicate-rule", "C16/reject/conflict-accepted", "a binding that conflicts with another method's is not rejected")
 		}
 		// the same method again is fine
 		rules = []rrule{{method: m1, primary: rbind{kind: kind, t: t}}, {method: m1, primary: rbind{kind: kind, t: t}}}
